@@ -173,6 +173,11 @@ def run(chk, tier, seed, replay):
                 continue
             mods.append((key, render(c, key, g)))
             meta[key] = (c, g)
+    if not replay:
+        # rustc cannot take an unbounded number of probe modules: the <= 2-variant enums, then a seeded share
+        keep = vlib.cap_cases([k for k, _ in mods], seed, 12000 if tier == "quick" else 30000,
+                              keep=lambda k: len(meta[k][0]["vs"]) <= 2)
+        mods = [m for m in mods if m[0] in keep]
     log(f"[C12] {len(mods)} enums")
     nsh = 4 if tier == "quick" else 12
     shards = [mods[i::nsh] for i in range(nsh)]
